@@ -327,7 +327,7 @@ func serve(m *cors.Middleware, r *http.Request, inner http.Handler) served {
 		if inner != nil {
 			inner.ServeHTTP(w2, r2)
 		} else {
-			w2.WriteHeader(200)
+			commitAndEdit(w2, w.h, 200) // (the recorder's own map: no scheduler gate)
 		}
 	})
 	handlerFor(m, spy).ServeHTTP(w, r) // the handler wrapped when the middleware was created, if any (serve.go)
